@@ -57,9 +57,15 @@ C08R(e, T) ==
 (* a witness: any valid alignment is a lower bound of the optimum *)
 WitR(e, T) ==
   IF e.wit = <<>> THEN "ok"
-  ELSE IF e.op # "global" \/ ~ValidGlobal(e.wit, e.a, e.b) THEN "CERT-witness-is-not-an-alignment-of-a-with-b"
-  ELSE IF e.score < Score(e.wit, e.a, e.b, T.m) THEN
-       "score-below-an-existing-alignment=" \o ToString(Score(e.wit, e.a, e.b, T.m))
+  ELSE IF e.op = "global" THEN
+         IF ~ValidGlobal(e.wit, e.a, e.b) THEN "CERT-witness-is-not-an-alignment-of-a-with-b"
+         ELSE IF e.score < Score(e.wit, e.a, e.b, T.m) THEN
+              "score-below-an-existing-alignment=" \o ToString(Score(e.wit, e.a, e.b, T.m))
+         ELSE "ok"
+  \* local: the witness is an alignment of a prefix of a with a prefix of b (offsets 0, 0)
+  ELSE IF ~ValidLocal(e.wit, 0, 0, e.a, e.b) THEN "CERT-witness-is-not-a-local-alignment"
+  ELSE IF e.score < ScoreFrom(e.wit, 0, 0, e.a, e.b, T.m) THEN
+       "score-below-an-existing-alignment=" \o ToString(ScoreFrom(e.wit, 0, 0, e.a, e.b, T.m))
   ELSE "ok"
 BigR(e, T) == IF e.panic THEN "panic" ELSE IF WitR(e, T) # "ok" THEN WitR(e, T) ELSE C08R(e, T)
 
